@@ -1,7 +1,10 @@
 import FxVerif.Model.C09
+import FxVerif.Model.C09Shape
 import FxVerif.Model.Util
 /-! line-protocol driver for the C09 model: `lake env lean --run Driver/C09.lean < ops.txt`
-`tx <gasLimit> <intrinsic> <program>`; the native store is instantiated with the list of applied effect ids. -/
+`tx <gasLimit> <intrinsic> <program>`; the native store is instantiated with the list of applied effect ids.  The shape of
+a precompile call's `Run` (writes outside the native action, recover(), gas meter) is looked up by ABI name in the
+regenerated table `Gen.C09.runFacts`: the model executes the methods as the source has them NOW. -/
 open FxVerif FxVerif.Util FxVerif.Model.C09
 
 abbrev NS := List Nat
@@ -28,6 +31,7 @@ def parseMode (s : String) : Option Mode :=
   | _ => none
 
 def markBase : Nat := 300000
+def leakBase : Nat := 400000
 
 /-- "<n>" or "<n>+<r>": n logs, one more when marker r is in the native store; a successful call sets marker r -/
 def parseLogs (s : String) : Option (Nat × Nat) :=
@@ -78,24 +82,31 @@ partial def parseList : List String → Option (List (Prog NS) × List Nat × Li
         | none => none
       | _, _ => none
     | none => none
-  | "P" :: id :: a :: b :: c :: d :: e :: f :: g :: h :: req :: mode :: w :: _name :: _extra :: lgs :: rest =>
-    match id.toNat?, req.toNat?, parseMode mode, parseLogs lgs with
-    | some id, some req, some md, some (nlog, mark) =>
+  | "P" :: id :: a :: b :: c :: d :: e :: f :: g :: h :: req :: mode :: w :: name :: extra :: lgs :: rest =>
+    match id.toNat?, req.toNat?, parseMode mode, parseLogs lgs, extra.toNat? with
+    | some id, some req, some md, some (nlog, mark), some extra =>
       match hdrOf id [a, b, c, d, e, f, g, h], parseList rest with
       | some hd, some (ns, ms, r) =>
+        let rf := factsOf name
+        let sh := match rf with | some rf => shapeOf rf | none => RunShape.tidy
+        let met := match rf with | some rf => metered rf | none => false
         -- a failing action half-writes (999999) and emits its logs before it fails
-        let act : Action NS := fun ro n =>
+        let act : ActionX NS := fun ro gasLeft n =>
           let lg := List.replicate (nlog + (if mark != 0 && n.contains (markBase + mark) then 1 else 0)) id
           let n' := if mark != 0 then (markBase + mark) :: n else n
-          if ro && w == "1" then (false, 999999 :: n, lg) else
+          if ro && w == "1" then (.err, 999999 :: n, lg) else
+          -- a method that meters its native work against the gas left in the frame panics part-way when that runs out
+          if met && gasLeft < extra then (.panic, 999999 :: n, lg) else
           match md with
-          | .ok => (true, id :: n', lg)
-          | .fail => (false, 999999 :: n, lg)
-          | .use r => if n.contains (resBase + r) then (false, 999999 :: n, lg) else (true, id :: (resBase + r) :: n', lg)
-          | .need r => if n.contains (resBase + r) then (false, 999999 :: n, lg) else (true, id :: n', lg)
-        some (.pre hd req act :: ns, ms, r)
+          | .ok => (.ok, id :: n', lg)
+          | .fail => (.err, 999999 :: n, lg)
+          | .use r => if n.contains (resBase + r) then (.err, 999999 :: n, lg) else (.ok, id :: (resBase + r) :: n', lg)
+          | .need r => if n.contains (resBase + r) then (.err, 999999 :: n, lg) else (.ok, id :: n', lg)
+        -- what `Run` writes outside the native action (only performed when the regenerated shape says it does)
+        let out : NS → NS := fun n => (leakBase + id) :: n
+        some (.pre hd req sh out [] act :: ns, ms, r)
       | _, _ => none
-    | _, _, _, _ => none
+    | _, _, _, _, _ => none
   | _ => none
 
 def showNats (xs : List Nat) : String :=
@@ -110,11 +121,13 @@ def step (st : Unit) (line : String) : Unit × String :=
       if gl < intr then (st, "rejected") else
       let v0 : View NS := { slots := fun _ => 0, native := [], logs := [] }
       let r := runTx (toks.length + 10) (gl - intr) prog v0
-      let status := match r.1 with | .ok => "ok" | .revert => "revert" | .fail => "fail"
+      let status := match r.1 with | .ok => "ok" | .revert => "revert" | .fail => "fail" | .abort => "abort"
       let ms := markers.filter (fun k => r.2.1.slots k != 0)
       let kept := r.2.1.native.filter (· < 100000)
       let used := (gl - intr) - r.2.2
-      (st, s!"{status} gas={used} markers={showNats ms} kept={showNats kept} logs={r.2.1.logs.length} ref=same")
+      -- anything committed that is not the effect of a kept call: a write made outside a native action, a half-written store
+      let leak := r.2.1.native.any (fun x => x == 999999 || x ≥ leakBase)
+      (st, s!"{status} gas={used} markers={showNats ms} kept={showNats kept} logs={r.2.1.logs.length} ref={if leak then "diff" else "same"}")
     | _, _, _ => (st, "bad-op")
   | _ => (st, "bad-op")
 
